@@ -69,7 +69,7 @@ class MindsDBParser(Parser):
         ('left', AND),
         ('right', UNOT),
         ('left', EQUALS, NEQUALS),
-        ('nonassoc', LESS, LEQ, GREATER, GEQ, IN, NOT_IN, BETWEEN, IS, IS_NOT, NOT_LIKE, LIKE),
+        ('nonassoc', LESS, LEQ, GREATER, GEQ, IN, NOT_IN, NOT, BETWEEN, IS, IS_NOT, NOT_LIKE, LIKE),
         ('left', JSON_GET),
         ('left', PLUS, MINUS),
         ('left', STAR, DIVIDE, TYPECAST, MODULO),
